@@ -311,7 +311,29 @@ def build(repo, trace):
     except ExtractError as e:
         unparsed['render_tile'] = str(e)
     trace.items.append((VOX_RS, 'Worker::render_tile (trait method of RenderWorker, as an inherent method: R-traitfn)'))
-    trace.drop('everything else of fidget-raster (RenderConfig, Worker::new, Scratch::new, render / render_tiles, effects.rs, pixel.rs: unit raster); '
+    # ---- Scratch::new, Worker::new (what establishes the scratch sizes the recursion relies on)
+    ctor = ''
+    try:
+        a3, b3 = rsx.impl_block(vox, r'^impl Scratch\b', 'impl Scratch')
+        i, j, k = rsx.find_fn(vox, 'new', a3, b3)
+        f_sn = vox[rsx.line_start(vox, i):k]
+        f_sn = sub_re(f_sn, r'\btile_size\.pow\(2\)', 'pow2(tile_size)', 'Scratch::new', None, trace, 'R-pow')
+        f_sn = sub_re(f_sn, r'\btile_size\.pow\(3\)', 'pow3(tile_size)', 'Scratch::new', None, trace, 'R-pow')
+        f_sn = sub_re(f_sn, r'vec!\[0\.0; (\w+)\]', r'vec_f32(0.0, \1)', 'Scratch::new', None, trace, 'R-vecmacro')
+        f_sn = sub_re(f_sn, r'vec!\[Grad::from\(0\.0\); (\w+)\]', r'vec_grad(grad_from(0.0), \1)', 'Scratch::new', None, trace, 'R-vecmacro')
+        f_sn = sub_re(f_sn, r'vec!\[0; (\w+)\]', r'vec_usize(0, \1)', 'Scratch::new', None, trace, 'R-vecmacro')
+        a3, b3 = rsx.impl_block(vox, r"^impl<'a, F: Function> RenderWorker<'a, F> for Worker<'a, F>", 'impl RenderWorker for Worker')
+        i, j, k = rsx.find_fn(vox, 'new', a3, b3)
+        f_wn = vox[rsx.line_start(vox, i):k]
+        f_wn = sub_once(f_wn, "cfg: &'a Self::Config,", "cfg: &'a RenderConfig,   // type Config = RenderConfig", 'Worker::new')
+        f_wn = sub_re(f_wn, r'vec!\[\]', 'Vec::new()', 'Worker::new', 'any', trace, 'R-vecmacro')
+        f_wn = sub_once(f_wn, ') -> Self {', ") -> Worker<'a, F> {", 'Worker::new')
+        ctor = 'impl Scratch {\n' + f_sn + '\n}\n\n' + "impl<'a, F: Function> Worker<'a, F> {\n" + f_wn + '\n}\n'
+        trace.items += [(VOX_RS, 'Scratch::new'), (VOX_RS, 'Worker::new (trait method of RenderWorker, as an inherent function: R-traitfn)')]
+    except ExtractError as e:
+        for q_ in ('Scratch::new', 'Worker::new'):
+            trace.lost.setdefault(q_, []).append('not extracted: %s' % e)
+    trace.drop('everything else of fidget-raster (render_tiles, effects.rs, pixel.rs: unit raster); '
                'the real ShapeTracingEval / ShapeBulkEval / RenderHandle / Interval / Grad / nalgebra types (stand-ins with stated contracts)')
     # ---- whole-image assembly: RenderConfig (fields checked), render
     asm = ''
@@ -356,7 +378,7 @@ def build(repo, trace):
             + '\n// ---------- tiles (real text of fidget-raster/src/lib.rs)\n' + tile + '\n\nimpl<const N: usize> Tile<N> {\n' + t_new + '\n\n' + t_add + '\n}\n\n' + tsr
             + "\n\nimpl<'a> TileSizesRef<'a> {\n    pub open spec fn wf(&self) -> bool { sizes_wf(self.0@) }\n" + f_index + '\n\n' + f_get + '\n\n' + f_off + '\n}\n\n'
             + '// ---------- the worker (real text of fidget-raster/src/voxel.rs)\n' + sc + '\n\n' + wk + '\n\n' + voc
-            + "\nimpl<F: Function> Worker<'_, F> {\n" + woven['tile_row_offset'] + '\n\n' + woven['render_tile_recurse'] + '\n\n' + woven['render_tile_pixels'] + '\n\n' + woven['render_tile'] + '\n}\n' + (asm + '\n' + woven['render'] + '\n' if asm and 'render' in woven else '')
+            + "\nimpl<F: Function> Worker<'_, F> {\n" + woven['tile_row_offset'] + '\n\n' + woven['render_tile_recurse'] + '\n\n' + woven['render_tile_pixels'] + '\n\n' + woven['render_tile'] + '\n}\n' + (asm + '\n' + woven['render'] + '\n' + ctor if asm and 'render' in woven else '')
             + '\n} // verus!\nfn main() {}\n')
     inj = Injector(text, trace)
     inj.spec('Tile::new', 'r: Tile<N>', '\n        ensures r.corner == corner\n')
@@ -366,7 +388,21 @@ def build(repo, trace):
     inj.spec('TileSizesRef::pixel_offset', 'r: usize', '\n        requires self.0@.len() >= 1, self.0@[0] >= 1, self.0@[0] * self.0@[0] <= usize::MAX\n        ensures r == (pos.x % self.0@[0]) + (pos.y % self.0@[0]) * self.0@[0]\n')
     inj.proof('TileSizesRef::pixel_offset', 're:let y = pos\\.y % [^;]*;',
               '        proof { assert(y * self.0@[0] <= (self.0@[0] - 1) * self.0@[0]) by (nonlinear_arith) requires 0 <= y < self.0@[0]; assert((self.0@[0] - 1) * self.0@[0] + self.0@[0] == self.0@[0] * self.0@[0]) by (nonlinear_arith); }')
+    if ctor and asm and 'render' in woven:
+        inj.spec('Scratch::new', 'r: Self', '\n        requires tile_size * tile_size * tile_size <= usize::MAX, tile_size * tile_size <= usize::MAX\n        ensures r.x@.len() == tile_size * tile_size * tile_size, r.y@.len() == r.x@.len(), r.z@.len() == r.x@.len(),\n            r.xg@.len() == tile_size * tile_size, r.yg@.len() == r.xg@.len(), r.zg@.len() == r.xg@.len()\n')
+        inj.spec('Worker::new', "r: Worker<'a, F>", '\n        requires tile_sizes.wf()\n        // exactly what render_tile requires of the worker\n        ensures r.tile_sizes == tile_sizes, r.image_size == cfg.image_size,\n            r.scratch.x@.len() == last_size(&r) * last_size(&r) * last_size(&r), r.scratch.y@.len() == r.scratch.x@.len(), r.scratch.z@.len() == r.scratch.x@.len(),\n            r.scratch.xg@.len() == last_size(&r) * last_size(&r), r.scratch.yg@.len() == r.scratch.xg@.len(), r.scratch.zg@.len() == r.scratch.xg@.len()\n')
+        inj.proof('Worker::new', '$START', '''        proof {
+            let l_ = tile_sizes.0@.len() - 1;
+            lemma_sizes_desc(tile_sizes.0@, 0, l_);
+            let n_ = tile_sizes.0@[l_] as int; let t_ = tile_sizes.0@[0] as int;
+            assert(n_ * n_ <= 16777216) by (nonlinear_arith) requires 0 <= n_ <= t_, t_ * t_ <= 16777216;
+            assert(n_ <= 4096) by (nonlinear_arith) requires 0 <= n_, n_ * n_ <= 16777216;
+            assert(n_ * n_ * n_ <= 68719476736) by (nonlinear_arith) requires 0 <= n_ <= 4096;
+        }''')
     obls = []
+    if ctor and asm and 'render' in woven:
+        for f in ('Scratch::new', 'Worker::new'):
+            obls.append(Obligation('voxel::' + f, 'voxel', f, props=PROPS, note='establishes the scratch sizes Worker::render_tile requires'))
     for f in ('Worker::render_tile', 'Worker::render_tile_recurse', 'Worker::render_tile_pixels', 'Worker::tile_row_offset'):
         obls.append(Obligation('voxel::' + f, 'voxel', f, props=PROPS, rlimit=100))
     for f in ('Tile::new', 'Tile::add', 'TileSizesRef::index', 'TileSizesRef::get', 'TileSizesRef::pixel_offset'):
